@@ -22,7 +22,10 @@ RULE = ('all operation sequences over {insert k (1<=k<=N+1), sample} up to the '
         'insert; distinct = distinct operation sequences (tree leaves) that are '
         'non-trivial')
 ASSUMPTIONS = [
-    'reference model: python list + cursor (mc/props/c17.py:Ref)',
+    'reference model: python list + cursor (mc/props/c17.py:Ref); second '
+    'opinion: tla/ReplayQueue.tla explored completely by TLC (invariants '
+    'Fifo/CursorOk/OutOk) and every edge of its dumped state graph replayed '
+    'against the real Queue',
     'canonical form (held count, cursor, host guard) is sound by data '
     'independence; cross-checked by bisimulation over the full DFS tree',
     'sampling an empty UniformSamplingQueue is not enabled (unguarded by the '
@@ -324,8 +327,137 @@ def _configs(tier):
   return out
 
 
+def _tla_configs(tier):
+  out = []
+  caps = (1, 2, 3) if tier == 'quick' else (1, 2, 3, 4)
+  for cap in caps:
+    for batch in (1, 2, 3):
+      for cyc in (False, True):
+        out.append(dict(cap=cap, batch=batch, cyclic=cyc,
+                        maxrec=2 * cap + (2 if tier == 'quick' else 4)))
+  return out
+
+
+def run_tla(task, res):
+  """TLC explores tla/ReplayQueue.tla completely (invariants checked by TLC)
+  and dumps its state graph; EVERY edge of that graph is replayed against the
+  real Queue: the implementation must produce the target state of the edge."""
+  import os
+  import re
+  import shutil
+  import subprocess
+  import tempfile
+  c = task['tla']
+  root = os.path.dirname(os.path.dirname(os.path.dirname(
+      os.path.abspath(__file__))))
+  work = tempfile.mkdtemp(prefix='tlc_', dir=os.path.join(root, '.cache'))
+  try:
+    shutil.copy(os.path.join(root, 'tla', 'ReplayQueue.tla'), work)
+    with open(os.path.join(work, 'ReplayQueue.cfg'), 'w') as f:
+      f.write('CONSTANTS Cap = %d\nBatch = %d\nCyclic = %s\nMaxRec = %d\n'
+              'INIT Init\nNEXT Next\nINVARIANT Inv\n' % (
+                  c['cap'], c['batch'], 'TRUE' if c['cyclic'] else 'FALSE',
+                  c['maxrec']))
+    p = subprocess.run(
+        ['tlc', '-workers', '1', '-noGenerateSpecTE', '-deadlock', '-metadir',
+         os.path.join(work, 'meta'), '-dump', 'dot,actionlabels',
+         os.path.join(work, 'out.dot'), 'ReplayQueue'], cwd=work,
+        capture_output=True, text=True, timeout=900)
+    if 'No error has been found' not in p.stdout:
+      res.setdefault('errors', []).append('TLC did not finish cleanly: ' +
+                                          p.stdout[-800:] + p.stderr[-400:])
+      return
+    m = re.search(r'(\d+) states generated, (\d+) distinct states', p.stdout)
+    dot = open(os.path.join(work, 'out.dot')).read()
+  finally:
+    shutil.rmtree(work, ignore_errors=True)
+  nodes, edges = {}, []
+  for line in dot.splitlines():
+    em = re.match(r'(-?\d+) -> (-?\d+) \[label="([^"]*)"', line)
+    if em:
+      edges.append((em.group(1), em.group(2), em.group(3)))
+      continue
+    nm = re.match(r'(-?\d+) \[label="([^"]*)"', line)
+    if nm:
+      lab = nm.group(2)
+      st = {}
+      for var in ('out', 'next', 'held', 'cursor'):
+        v = re.search(var + r' = (<<[^>]*>>|\d+)', lab).group(1)
+        st[var] = ([int(x) for x in re.findall(r'\d+', v)]
+                   if v.startswith('<<') else int(v))
+      nodes[nm.group(1)] = st
+  init = [n for n, st in nodes.items() if st['next'] == 0 and not st['held']]
+  if len(init) != 1 or int(m.group(2)) != len(nodes):
+    res.setdefault('errors', []).append('could not parse the TLC state graph')
+    return
+  sys_ = QueueSystem(cap=c['cap'], batch=c['batch'],
+                     mode='cyclic' if c['cyclic'] else 'fifo')
+  # implementation state per model state, by BFS over the graph
+  impl = {init[0]: sys_.init()}
+  out_edges = {}
+  for u, v, a in edges:
+    out_edges.setdefault(u, []).append((v, a))
+  frontier = [init[0]]
+  case_cfg = dict(cap=c['cap'], batch=c['batch'],
+                  mode='cyclic' if c['cyclic'] else 'fifo')
+  hist = {init[0]: []}
+  while frontier:
+    u = frontier.pop(0)
+    for v, a in out_edges.get(u, []):
+      op = ('sample',) if a.startswith('Sample') else (
+          'insert', int(re.search(r'\d+', a).group()))
+      nxt, problems, outcome = sys_.apply(impl[u], op)
+      res['transitions'] += 1
+      res['evaluations'] += 1
+      tgt = nodes[v]
+      h = hist[u] + [list(op)]
+      if nxt is None and not problems:
+        problems = [('tla-refused', 'implementation refused %s which the '
+                     'model enables' % (op,))]
+      if not problems:
+        held, ip, sp = sys_._held_impl(nxt[0])
+        got_out = list(outcome[1]) if outcome[0] == 'sample' else []
+        if held[0] != tgt['held'] or sp[0] != tgt['cursor'] or \
+            got_out != tgt['out']:
+          problems = [('tla-conformance',
+                       'edge %s: implementation reached held=%s cursor=%d '
+                       'out=%s, TLC state held=%s cursor=%d out=%s' % (
+                           a, held[0], sp[0], got_out, tgt['held'],
+                           tgt['cursor'], tgt['out']))]
+      for key, what in problems[:1]:
+        res['violations'].append(dict(key='C17:' + key, what=what,
+                                      case=dict(cfg=case_cfg, history=h)))
+      if problems:
+        return
+      if v not in impl:
+        impl[v] = nxt
+        hist[v] = h
+        frontier.append(v)
+  # model states in which Sample is NOT enabled: the implementation must refuse
+  for u, st in nodes.items():
+    if u in impl and not any(a.startswith('Sample') for _, a in
+                             out_edges.get(u, [])):
+      nxt, problems, outcome = sys_.apply(impl[u], ('sample',))
+      res['transitions'] += 1
+      if nxt is not None or problems:
+        res['violations'].append(dict(
+            key='C17:tla-refusal', what='model state %s disables Sample but '
+            'the implementation %s' % (st, problems or 'accepted it'),
+            case=dict(cfg=case_cfg, history=hist[u] + [['sample']])))
+        return
+  res['states'] += len(nodes)
+  res['paths'] += len(edges)
+  res['extra']['tlc_states'] = len(nodes)
+  res['extra']['tlc_edges_replayed'] = len(edges)
+  res['samples'].append(dict(kind='TLC state graph replay', cfg=c,
+                             tlc_distinct_states=len(nodes),
+                             edges_replayed=len(edges)))
+
+
 def tasks(tier, seed):
   ts = []
+  for c in _tla_configs(tier):
+    ts.append(dict(name='tla %s' % c, kind='tla', tla=c, cost=3000))
   for cfg, d, b in _configs(tier):
     branch = cfg['cap'] + 2
     cost = branch ** d * (30 if cfg.get('wrapper') == 'pmap' else
@@ -356,6 +488,12 @@ def _nontrivial(hist, cap):
 
 
 def run_task(task):
+  if task.get('kind') == 'tla':
+    res = dict(evaluations=0, states=0, transitions=0, paths=0, nontrivial=0,
+               outcomes=[], violations=[], caps=[], samples=[], extra={})
+    run_tla(task, res)
+    res['outcomes'] = [task['name']]
+    return res
   cfg = task['cfg']
   sys_ = QueueSystem(**cfg)
   st = seqx.dfs_tree(sys_, task['depth'])
